@@ -12,22 +12,24 @@ RULE = ('all 23 message classes x {SOP class UID of every length 1..64, SOP inst
         'object through the real Association.send; every send is parsed by the reference reader. '
         'distinct/non-trivial = distinct (class, command-set byte length, #sends, data-set flag)')
 ASSUMPTIONS = ['Association is built over a stub provider that records the generator handed to dul.send',
-               'out of alphabet: clearing data_set back to None on a reused message; empty file objects']
+               'out of alphabet: empty file objects as data set']
 
-OPS = ['status', 'dataset_longer', 'dataset_shorter', 'counters', 'uid_longer', 'none']
+OPS = ['status', 'dataset_longer', 'dataset_shorter', 'dataset_empty', 'dataset_none', 'counters', 'uid_longer', 'extra_element', 'none']
 
 
 def domain(tier):
     return {'classes': 23, 'uid_lengths': '1..64', 'numeric_grid': [0, 1, 255, 256, 32767, 32768, 65535],
-            'ops': OPS, 'op_depth': 3 if tier == 'thorough' else 2}
+            'extra_elements': ['ErrorComment', 'OffendingElement', 'ErrorID'], 'ops': OPS, 'op_depth': 3 if tier == 'thorough' else 2}
 
 
 def cases(tier, seed):
     from ..pdugen import uid_of_len
     names = msggen.CLASS_NAMES
     for name in names:
-        for ds in (None, b'\x08\x00\x18\x00\x02\x00\x00\x001.'):
+        for ds in (None, b'', b'\x08\x00\x18\x00\x02\x00\x00\x001.'):
             yield {'cls': name, 'ds': ds, 'ops': []}
+            for extra in (['ErrorComment'], ['OffendingElement'], ['ErrorID', 'ErrorComment']):
+                yield {'cls': name, 'ds': ds, 'ops': [], 'extra': extra}
     for name in names:
         for n in range(1, 65):
             for ds in (None, b'DATA' * 5):
@@ -68,6 +70,8 @@ def run_case(case):
     if 'unset' in case:
         kw['unset'] = case['unset']
     msg = msggen.make(name, data_set=case['ds'], **kw)
+    for kwd in case.get('extra', ()):
+        setattr(msg.command_set, kwd, {'ErrorComment': 'odd', 'OffendingElement': [0x00100010], 'ErrorID': 7}[kwd])
     viol = []
     with stubs.patched_dul():
         assoc = asceprovider.Association(stubs.FakeAE(), None, case.get('maxlen', 16384))
@@ -80,6 +84,12 @@ def run_case(case):
                 msg.data_set = b'LONGER-DATA-SET-' * (n + 2)
             elif op == 'dataset_shorter':
                 msg.data_set = b'sh'
+            elif op == 'dataset_empty':
+                msg.data_set = b''
+            elif op == 'dataset_none':
+                msg.data_set = None
+            elif op == 'extra_element':
+                msg.command_set.ErrorComment = 'verif comment %d' % n
             elif op == 'counters' and 'NumberOfRemainingSuboperations' in msg.command_set:
                 msg.num_of_remaining_sub_ops = 10 - n
                 msg.num_of_completed_sub_ops = n
